@@ -423,7 +423,7 @@ func c15Frequency(c *Case) []Violation {
 		}
 	}
 	if cur != nil {
-		cur.Data[fmt.Sprintf("freq/%s/%s/%d", cfg.Method, cfg.Order, lo)] = []int{nl, nm}
+		cur.Data[fmt.Sprintf("freq/%s/%s/%d", asS(c.Params["tag"]), cfg.Order, lo)] = []int{nl, nm}
 		return nil
 	}
 	return nil
@@ -431,7 +431,7 @@ func c15Frequency(c *Case) []Violation {
 
 func c15Run(s *Shard) {
 	cur = s
-	wsets := map[int][][]float64{2: {{1, 2}, {2, 1}, {2, 2}}, 3: {{1, 2, 3}, {3, 2, 1}, {2, 2, 1}}, 4: {{1, 2, 3, 4}, {4, 3, 2, 1}, {2, 2, 1, 3}}}
+	wsets := map[int][][]float64{2: {{1, 2}, {2, 1}, {2, 2}, {0, 1}}, 3: {{1, 2, 3}, {3, 2, 1}, {2, 2, 1}, {1, 0, 2}}, 4: {{1, 2, 3, 4}, {4, 3, 2, 1}, {2, 2, 1, 3}}}
 	ratios := []float64{0.5, 0, 0.25, 0.34, 0.75, 1}
 	mins := []int{-1, 0, 1, 2}
 	maxs := []int{-1, 0, 1, 2}
@@ -466,6 +466,15 @@ func c15Run(s *Shard) {
 			}
 			for _, method := range allMethods {
 				for _, w := range wsets[n] {
+					hasZero := false
+					for _, x := range w {
+						if x == 0 {
+							hasZero = true
+						}
+					}
+					if hasZero && method == "electreIII" {
+						continue // ELECTRE weights must be positive
+					}
 					for _, o := range opts {
 						if mins[o[1]] >= 0 && maxs[o[2]] >= 0 && maxs[o[2]] < mins[o[1]] {
 							continue // max < min is rejected by validation (C20's subject)
@@ -524,20 +533,30 @@ func c15Run(s *Shard) {
 		maxSeed = 16384
 	}
 	s.Bounds["frequency_seeds"] = maxSeed
-	for _, method := range allMethods {
+	for _, method := range append(append([]string{}, allMethods...), "majorityHeuristic#zero", "aspectEliminationHeuristic#zero", "weightedSum#zero") {
 		for _, ord := range []string{"weakestByProbability", "strongestByProbability"} {
 			for lo := int64(0); lo < maxSeed; lo += 512 {
 				if !s.Take() {
 					continue
 				}
-				cfg := c15Cfg{Method: method, N: 3, Vals: [][]float64{{1, 2, 3}, {1, 2, 3}}, W: []float64{1, 2, 4}, Order: ord, Script: -1}
-				c := &Case{Prop: "C15", Kind: "frequency", Params: M{"cfg": cfg, "seed_lo": lo, "seed_hi": lo + 512}}
+				cfg := c15FreqCfg(method, ord)
+				c := &Case{Prop: "C15", Kind: "frequency", Params: M{"cfg": cfg, "seed_lo": lo, "seed_hi": lo + 512, "tag": method}}
 				s.Evals += 512
 				s.Begin(c)
 				s.Report(c15Frequency(c))
 			}
 		}
 	}
+}
+
+// c15FreqCfg: the instance swept over real seeds; "<method>#zero" gives the least important criterion importance exactly 0.
+func c15FreqCfg(method, ord string) c15Cfg {
+	w := []float64{1, 2, 4}
+	if strings.HasSuffix(method, "#zero") {
+		method = strings.TrimSuffix(method, "#zero")
+		w = []float64{0, 1, 3}
+	}
+	return c15Cfg{Method: method, N: 3, Vals: [][]float64{{1, 2, 3}, {1, 2, 3}}, W: w, Order: ord, Script: -1}
 }
 
 func c15Finalize(m *Merged) {
@@ -561,7 +580,7 @@ func c15Finalize(m *Merged) {
 		obs[k.method+"/"+k.ord] = M{"least_important_first": t[0], "most_important_first": t[1]}
 		bad := (k.ord == "weakestByProbability" && t[0] <= t[1]) || (k.ord == "strongestByProbability" && t[1] <= t[0])
 		if bad {
-			cfg := c15Cfg{Method: k.method, N: 3, Vals: [][]float64{{1, 2, 3}, {1, 2, 3}}, W: []float64{1, 2, 4}, Order: k.ord, Script: -1}
+			cfg := c15FreqCfg(k.method, k.ord)
 			c := &Case{Prop: "C15", Kind: "frequency", Params: M{"cfg": cfg, "seed_lo": 0, "seed_hi": 4096}}
 			m.AddViolation(viol(c, "C15/frequency/"+k.ord, "%s with %s: least important criterion first %d times, most important first %d times", k.method, k.ord, t[0], t[1]))
 		}
